@@ -27,14 +27,14 @@ V4 = bytes([1, 2, 3, 4])
 V6 = bytes(range(16))
 
 
-def _messages(socks, client, chunks):
+def _messages(need_cls, client, chunks):
     """messages emitted by a dialogue (public API only)"""
     out = []
     chunks = list(chunks)
     for _ in range(12):
         try:
             m = client.next_message()
-        except socks.NeedData:
+        except need_cls:
             if not chunks:
                 break
             client.receive_data(chunks.pop(0))
@@ -47,13 +47,48 @@ def _messages(socks, client, chunks):
     return out
 
 
+# host names NetAddress is asked to take (C18 bridge): (label, string)
+def host_probes():
+    lab63 = 'x' * 63
+    n253 = '.'.join([lab63, lab63, lab63, 'y' * 61])
+    assert len(n253) == 253
+    return [('plain', 'a.bc'), ('nul', 'a\0b'), ('nul_label', 'a.b\0'), ('non_ascii', '\xe9.com'),
+            ('kelvin', '\u212a.com'), ('len253', n253), ('len253_dot', n253 + '.'),
+            ('len254', n253 + 'y'), ('len255_dot', n253 + 'y.'), ('label64', 'x' * 64 + '.com'),
+            ('space', 'a b.com'), ('empty', '')]
+
+
+def _proxy_probe(repo):
+    """bytes each proxy connection received when `create_connection` (SOCKS5, credentials
+    `ab`/`cde`, destination a.bc:0x0506) meets a proxy whose address resolves to three entries:
+    the first selects method 2 and hangs up, the second hangs up after `05`, the third selects
+    method 0 and grants"""
+    from harness import socks_common as sc, socks_world as sw
+    mods = sc.Mods(repo)
+    w = sw.World()
+    w.add_call(0, [[('t', b'\x05\x02', []), ('t', b'\x05', []),
+                    ('t', bytes([5, 0, 5, 0, 0, 1, 0, 0, 0, 0, 0, 0]), [])]])
+    proxy = sw.make_proxy(mods, '5', ('ab', 'cde'))
+    with sw.patched(mods, w):
+        with sw.watchdog(5.0):
+            r = sw.run_one(w, 0, proxy.create_connection(sw.Factory(), 'a.bc', PORT))
+    return [list(c.received) for c in w.conns], sw.outcome_name(r)
+
+
 def extract(repo):
+    from harness import socks_common as sc
     socks = common.fresh_import(repo, 'aiorpcx.socks')
     util = common.fresh_import(repo, 'aiorpcx.util')
+    need_cls = sc.need_data_class(socks, util)
     NA, UA = util.NetAddress, socks.SOCKSUserAuth
     a4 = NA(IPv4Address(V4), PORT)
     a6 = NA(IPv6Address(V6), PORT)
     an = NA('a.bc', PORT)
+    am = NA(IPv4Address(bytes([0, 0, 0, 5])), PORT)          # SOCKS4a's host-name marker form
+    try:
+        az = NA(IPv6Address('fe80::1%eth0'), PORT)           # zone-scoped IPv6
+    except Exception:       # an ipaddress without scope support: nothing to probe
+        az = None
     auth = UA('ab', 'cde')
 
     def accepts(cls, addr, au=None):
@@ -65,7 +100,7 @@ def extract(repo):
 
     def msgs(cls, addr, au, chunks):
         try:
-            return _messages(socks, cls(addr, au), chunks)
+            return _messages(need_cls, cls(addr, au), chunks)
         except Exception:
             return []
 
@@ -82,9 +117,22 @@ def extract(repo):
     f['socks5_auth_sel2'] = msgs(socks.SOCKS5, a6, auth, [b'\5\2', b'\1\0'])
     f['user_len_accepted'] = [n for n in range(0, 301) if accepts(socks.SOCKS5, a4, UA('a' * n, 'p'))]
     f['pass_len_accepted'] = [n for n in range(0, 301) if accepts(socks.SOCKS5, a4, UA('u', 'a' * n))]
-    f['accepts'] = {name: [accepts(cls, a4), accepts(cls, a6), accepts(cls, an)]
+    f['socks5_tuple_auth_sel0'] = msgs(socks.SOCKS5, a4, ('ab', 'cde'), [b'\5\0'])
+    f['accepts'] = {name: [accepts(cls, a4), accepts(cls, a6), accepts(cls, an), accepts(cls, am),
+                           az is not None and accepts(cls, az)]
                     for name, cls in (('socks4', socks.SOCKS4), ('socks4a', socks.SOCKS4a),
                                       ('socks5', socks.SOCKS5))}
+
+    def host_ok(name):
+        try:
+            return isinstance(NA(name, PORT).host, str)
+        except Exception:
+            return False
+    f['host_accepted'] = [host_ok(name) for _label, name in host_probes()]
+    try:
+        f['proxy_probe'], f['proxy_probe_result'] = _proxy_probe(repo)
+    except BaseException as e:      # the probe could not run: recorded, the theorem decides
+        f['proxy_probe'], f['proxy_probe_result'] = [], type(e).__name__
     f['fingerprints'] = common.fingerprints(repo, FUNCS)
     return f
 
@@ -123,7 +171,14 @@ def render(f):
         f'def userLenAccepted : List Nat := {f["user_len_accepted"]}\n'
         '/-- the same for the password -/\n'
         f'def passLenAccepted : List Nat := {f["pass_len_accepted"]}\n'
-        '/-- does the constructor accept an IPv4 / IPv6 / host-name destination -/\n'
+        '/-- `SOCKS5(1.2.3.4:0x0506, ("ab","cde"))` - a plain tuple, not a SOCKSUserAuth - answers `05 00` -/\n'
+        f'def socks5TupleAuthSel0 : List (List UInt8) := {_bl(f["socks5_tuple_auth_sel0"])}\n'
+        '/-- is each probe host name (tools/facts/c16.py host_probes) taken by NetAddress as a host name -/\n'
+        f'def hostAccepted : List Bool := {_bools(f["host_accepted"])}\n'
+        '/-- bytes each of the three proxy connections of the proxy probe received; and the result -/\n'
+        f'def proxyProbe : List (List UInt8) := {_bl(f["proxy_probe"])}\n'
+        f'def proxyProbeResult : String := "{f["proxy_probe_result"]}"\n'
+        '/-- does the constructor accept an IPv4 / IPv6 / host-name / 0.0.0.5 / zone-scoped IPv6 destination -/\n'
         f'def socks4Accepts : List Bool := {_bools(f["accepts"]["socks4"])}\n'
         f'def socks4aAccepts : List Bool := {_bools(f["accepts"]["socks4a"])}\n'
         f'def socks5Accepts : List Bool := {_bools(f["accepts"]["socks5"])}\n'
